@@ -190,6 +190,10 @@ class JsonDocument(HierDictDocument):
         except JSONDecodeError as e:
             raise Fault('Client.JsonDecodeError', repr(e))
 
+        except LookupError as e:
+            # the client named a charset that does not exist
+            raise Fault('Client.JsonDecodeError', repr(e))
+
     def create_out_string(self, ctx, out_string_encoding='utf8'):
         """Sets ``ctx.out_string`` using ``ctx.out_document``."""
         if out_string_encoding is None:
